@@ -5,12 +5,12 @@ cd /verif || exit 2
 rc=0
 for p in $(jq -r '.checks[].property_id' MANIFEST.json); do
   digests=""
-  for seed in 1 2 7; do
+  for seed in ${SILENCE_SEEDS:-1 2 7}; do
     out=$(VERIF_SEED=$seed ./check $p --tier quick 2>&1); code=$?
     if [ $code -ne 0 ] || echo "$out" | grep -q '^VIOLATION'; then echo "NOT SILENT: $p seed=$seed exit=$code"; echo "$out" | tail -3; rc=1; fi
     digests="$digests $(jq -r '.coverage.space_digest' evidence/$p.json)"
   done
   set -- $digests
-  if [ "$1" != "$2" ] || [ "$2" != "$3" ]; then echo "SPACE DIFFERS ACROSS SEEDS: $p $digests"; rc=1; else echo "ok $p $1"; fi
+  if [ -n "$(printf "%s\n" $digests | sort -u | sed 1d)" ]; then echo "SPACE DIFFERS ACROSS SEEDS: $p $digests"; rc=1; else echo "ok $p $1"; fi
 done
 exit $rc
